@@ -43,6 +43,8 @@ JOBS = [
     dict(job=('specs.equalizer', 'play_and_compare', {}), props=['C08', 'C19']),
     dict(job=('specs.equalizer', 'within_worker', {'mode': 'dedicated'}), props=['C08', 'C13']),
     dict(job=('specs.equalizer', 'within_worker', {'mode': 'inprocess'}), props=['C08']),
+    dict(job=('specs.equalizer', 'worker_target', {}), props=['C08', 'C13']),
+    dict(job=('specs.c01', 'tr_init', {}), props=['C09', 'C17']),
     # ---- cassettes: in-memory, file-based, MemoryRecording, TapeCassette base methods
     dict(job=('specs.cassettes', 'in_memory_roundtrip', {}), props=['C07', 'C11', 'C02', 'C09', 'C05']),
     dict(job=('specs.cassettes', 'in_memory_get', {}), props=['C07', 'C11']),
@@ -124,6 +126,9 @@ def extra_for(prop, tier, seed):
     if prop in ('C15', 'C07', 'C16'):
         from specs import s3
         out.append(lambda: (lambda r: dict(r, results=[x for x in r['results'] if x['prop'] == prop]))(s3.lemmas()))
+    if prop == 'C01':
+        from specs import c01
+        out.append(c01.lemmas)
     if prop == 'C08':
         from specs import equalizer
         out.append(equalizer.lemmas)
